@@ -16,6 +16,15 @@
 //	M2  a peer caches a live connection  =>  the other peer caches the same one;
 //	M3  a stream that DialStream returned still echoes (its connection was not closed by the
 //	    negotiation) — not judged for rounds that reap a connection themselves.
+//
+// Every cache-state read of a negotiation is bracketed by two probes of the node's cache
+// (hooks reuse.identified / reuse.cachesent run on the negotiating goroutine), so the harness
+// knows what each negotiation announced (FRESH / CACHED). A dead stream in a pair that
+// started with empty caches, dialled crosswise and announced FRESH four times is the known
+// simultaneous-open defect (key all-fresh-cross:returned-connection-closed); if the
+// announcements cannot be established (a probe raced with a store; reads of a 3-node group
+// that cannot be attributed to the pair) the dead stream is counted, not judged; everything
+// else keeps its own key.
 package main
 
 import (
